@@ -1,10 +1,11 @@
 #!/venv/bin/python
-"""bin/mutants <ID> [name ...] : sensitivity test. Each mutant in mutants/<ID>.json is a string replacement
-{name, file, old, new[, count]} applied to a scratch copy of /repo/commonroad under /var/tmp (removed afterwards);
-the property's quick check must exit 1 on it. Prints caught/MISSED per mutant."""
+"""Variant of bin/mutants that takes the base tree from MUT_BASE (default /repo): the C09 mutants are written against
+the text of the FIXED scenario.py, so until the three C09 patches are in /repo run
+    MUT_BASE=/tmp/wt-c09 MUT_PAR=1 MUT_NPROC=4 /verif/agent_reports/C09/run_mutants.py C09"""
 import json, os, shutil, subprocess, sys, tempfile, time
 from concurrent.futures import ThreadPoolExecutor
-HERE = os.path.dirname(os.path.dirname(os.path.abspath(__file__)))
+HERE = "/verif"
+BASE = os.environ.get("MUT_BASE", "/repo")
 prop = sys.argv[1].upper()
 only = set(sys.argv[2:])
 muts = json.load(open(os.path.join(HERE, "mutants", prop + ".json")))
@@ -13,7 +14,8 @@ def run(m):
         return None
     d = tempfile.mkdtemp(prefix="crmut.", dir="/var/tmp")
     try:
-        shutil.copytree("/repo/commonroad", os.path.join(d, "commonroad"), ignore=shutil.ignore_patterns("__pycache__"))
+        shutil.copytree(os.path.join(BASE, "commonroad"), os.path.join(d, "commonroad"),
+                        ignore=shutil.ignore_patterns("__pycache__"))
         p = os.path.join(d, m["file"])
         s = open(p).read()
         n = s.count(m["old"])
@@ -21,7 +23,8 @@ def run(m):
             return (m["name"], "PATCH-ERROR old occurs %d times" % n, 0)
         open(p, "w").write(s.replace(m["old"], m["new"]))
         t0 = time.time()
-        env = dict(os.environ, VERIF_REPO=d, VERIF_NPROC=os.environ.get("MUT_NPROC", "8"), VERIF_MAX_ROUNDS="1")
+        env = dict(os.environ, VERIF_REPO=d, VERIF_NPROC=os.environ.get("MUT_NPROC", "8"),
+                   VERIF_HOME_REPLAYS="discard")
         args = [os.path.join(HERE, "bin", "check"), prop, "--no-evidence"]
         for f in m.get("facets", []):
             args += ["--facet", f]
@@ -30,13 +33,12 @@ def run(m):
         status = "caught" if r.returncode == 1 else ("MISSED" if r.returncode == 0 else "HARNESS-ERROR rc=%d" % r.returncode)
         if r.returncode not in (0, 1):
             sys.stderr.write(r.stdout[-3000:] + r.stderr[-3000:])
-        return (m["name"], status + " " + ",".join(buckets)[:300], time.time() - t0)
+        return (m["name"], status + " " + ",".join(buckets)[:400], time.time() - t0)
     finally:
         shutil.rmtree(d, ignore_errors=True)
-        # replays written while testing mutants are not kept
 with ThreadPoolExecutor(int(os.environ.get("MUT_PAR", "2"))) as ex:
     res = [r for r in ex.map(run, muts) if r]
 for name, status, t in res:
-    print("%-40s %s (%.0fs)" % (name, status, t))
+    print("%-45s %s (%.0fs)" % (name, status, t))
 bad = [r for r in res if not r[1].startswith("caught")]
 sys.exit(1 if bad else 0)
